@@ -19,8 +19,21 @@ def _anchored_names(prop):
             continue
         for m in p["anchors"].get("mechanism", []):
             for w in re.findall(r"[A-Za-z_][A-Za-z0-9_]{3,}", m.get("name", "")):
-                names.add(w)
+                if "_" in w or (w[0].isupper() and len(w) >= 8):      # function-like identifiers only
+                    names.add(w)
     return names
+
+
+def derive_inputs(texts):
+    """split generated program fragments into the items a derive macro receives (the #[derive(..)] line is not part of its input)"""
+    out = []
+    for t in texts:
+        parts = re.split(r"(?m)^#\[derive\([^\n]*o2o[^\n]*\)\]\n", t)
+        for p in parts[1:]:
+            # an item ends at the first line that is exactly `}` / `);` / `;` terminated struct
+            m = re.search(r"(?m)^(\}|\);|pub struct \w+;|struct \w+;)\s*$", p)
+            out.append(p[:m.end()] if m else p)
+    return out
 
 
 def report(ck, prop, srcs, limit=6000):
@@ -68,11 +81,12 @@ def report(ck, prop, srcs, limit=6000):
         if not files or "/o2o-impl/src/" not in files[0]:
             continue
         name = fn["name"]
-        m = re.findall(r"(\d+)([A-Za-z_][A-Za-z0-9_]*)", name)   # mangled v0 / legacy: pick identifier pieces
+        # mangled names carry length-prefixed identifiers: "<len><ident>"
         short = None
-        for _, ident in m:
-            if ident in want:
-                short = ident
+        for w in want:
+            if f"{len(w)}{w}" in name:
+                if short is None or len(w) > len(short):
+                    short = w
         if short is None:
             continue
         regs = [r for r in fn["regions"] if r[7] == 0]          # code regions
